@@ -234,7 +234,7 @@ def run_real(case):
             out["root"] = _guard(lambda: _bid(ds.root_dataset))
             out["getdim"] = _guard(lambda: ds.getdim_x() - 1)
             out["wrappers"] = _guard(lambda: [[_uid(w), _ty_of(w)] for w in ds.all_wrappers])
-            out["_wrapper_types"] = _guard(lambda: [_ty_of_type(t) for t in ds.all_wrapper_types])
+            out["wrapper_types"] = _guard(lambda: [_ty_of_type(t) for t in ds.all_wrapper_types])
             out["of_type"] = [_guard(lambda t=t: [_uid(w) for w in ds.get_wrappers_of_type(ty_to_class(t))]) for t in case["tys"]]
             out["has_type"] = [_guard(lambda t=t: bool(ds.has_wrapper_type(ty_to_class(t)))) for t in case["tys"]]
             out["has"] = [_guard(lambda u=u: bool(ds.has_wrapper(env["objs"].get(u, _NOBODY)))) for u in case["uids"]]
@@ -489,7 +489,7 @@ def oracle(case, real):
     ch = linear_chain(spec)
     if ch is not None:
         layers, bid = ch
-        exp = {"root": bid, "getdim": bid, "wrappers": [[u, t] for u, t in layers], "_wrapper_types": [t for _, t in layers],
+        exp = {"root": bid, "getdim": bid, "wrappers": [[u, t] for u, t in layers], "wrapper_types": [t for _, t in layers],
                "of_type": [[u for u, t in layers if t == ty] for ty in case["tys"]],
                "has_type": [any(t == ty for _, t in layers) for ty in case["tys"]],
                "has": [any(u == uu for u, _ in layers) for uu in case["uids"]],
@@ -839,10 +839,6 @@ class C02(PropertyCheck):
                     res.bump(f"item={'ok' if isinstance(it, list) else it}")
             mv = {k: v for k, v in model.items() if k not in ("flatten", "valid")}
             rv = strip_private(real)
-            if "getdim" in rv:
-                gd = rv.pop("getdim")
-                if gd != rv.get("root"):
-                    rv["root"] = {"root_dataset": rv.get("root"), "getdim": gd}
             if mv != rv:
                 if len(res.disagreements) < 50:
                     diff = {k: [mv.get(k), rv.get(k)] for k in set(mv) | set(rv) if mv.get(k) != rv.get(k)}
